@@ -22,7 +22,7 @@ def _short(x, n=160):
 
 
 class Loc:
-    __slots__ = ('state', 'stage', 'stage_exact', 'tainted', 'writer', 'key', 'err_dir', 'kind', 'slug', 'last_run', 'steps', 'fail_partial', 'tree')
+    __slots__ = ('state', 'stage', 'stage_exact', 'tainted', 'writer', 'key', 'err_dir', 'kind', 'slug', 'last_run', 'steps', 'fail_partial', 'tree', 'migrated')
 
     def __init__(self, kind, slug, steps=0):
         self.state = 'absent'      # absent | complete | indoubt
@@ -38,6 +38,7 @@ class Loc:
         self.steps = steps
         self.fail_partial = False
         self.tree = None
+        self.migrated = False
 
 
 class Obj:
@@ -68,14 +69,20 @@ class Judge:
         self.abstract_states = []
         self.proc = None
         self.cur_multi = False
+        self.cur_migrated = False
         self.muted = False
         self.key_tree = {}
+        self.listings = {}
+        self.migration_targets = {p_op['target'] for p in scn['procs'] for p_op in p['ops'] if p_op['op'] == 'migrate'}
 
     # ------------------------------------------------------------------ helpers
     def disc(self, prop, inv, i, msg, **detail):
         if self.muted:
             return      # operations executed by the frozen earlier release: only their effect on the store matters
-        self.discs.append(Disc(prop=prop, inv=inv, op=i, msg=msg, detail=detail))
+        zone = detail.pop('zone', None)
+        self.discs.append(Disc(prop=prop, inv=inv, op=i, msg=msg, detail=detail, zone=zone))
+        if self.cur_migrated and prop in ('C01', 'C04', 'C06'):
+            self.discs.append(Disc(prop='C20', inv=inv, op=i, msg='after migration: ' + msg, detail=detail, zone=None))
         if self.cur_multi and prop in ('C01', 'C02', 'C04'):
             # a member chain of a MultiChain must behave as the standalone chain of its config (C13)
             self.discs.append(Disc(prop='C13', inv=inv, op=i, msg='member chain differs from standalone chain: ' + msg, detail=detail))
@@ -114,6 +121,7 @@ class Judge:
                     continue
                 ch = self.proc['chains'].get(op.get('cid'))
                 self.cur_multi = op['op'] in ('mbuild', 'mforce') or bool(ch and ch['registry'][0] == 'multi')
+                self.cur_migrated = bool(ch and ch['store'] in self.migration_targets)
                 getattr(self, 'j_' + op['op'])(op, o)
                 if o.get('crash'):
                     self.proc['dead'] = True
@@ -540,10 +548,55 @@ class Judge:
         self.proc['faults'].clear()
 
     def j_ls(self, op, o):
-        pass
+        store = op.get('store', 'main')
+        ls = (o.get('res') or {}).get('ls') or {}
+        prev = self.listings.get(store)
+        self.listings[store] = ls
+        exp = op.get('expect')
+        if exp == 'unchanged' and prev is not None:
+            changed = sorted(k for k in set(prev) | set(ls) if (k in prev) != (k in ls) or prev.get(k) != ls.get(k))
+            files = [k for k in changed if prev.get(k) is not None or ls.get(k) is not None]
+            dirs = [k for k in changed if k not in files]
+            if files:
+                self.disc('C20', 'I-source', op['i'], f'migration changed files of the {op.get("what", "source")} directory',
+                          changed=[[k, prev.get(k, 'absent'), ls.get(k, 'absent')] for k in files[:5]])
+            elif dirs:
+                self.disc('C20', 'I-source-dirs', op['i'], f'migration created or removed directories in the {op.get("what", "source")} directory',
+                          zone='migration_source_dirs_created' if op.get('what', 'source') == 'source' and all(k in ls and k not in prev for k in dirs) else None,
+                          dirs=dirs[:6])
+        if exp == 'no_files':
+            files = [k for k, v in ls.items() if v is not None]
+            if files:
+                self.disc('C20', 'I-dry', op['i'], 'dry migration wrote files into the target directory', files=files[:5])
 
     def j_migrate(self, op, o):
-        pass
+        res = o.get('res') or {}
+        if o['inv']:
+            self.disc('C20', 'I-runs', op['i'], 'migration executed a run', inv=o['inv'])
+        if 'err' in res:
+            self.disc('C20', 'I-migrate', op['i'], 'migrate_to_parameter_mode raised', err=res['err'], dry=op.get('dry'))
+            return
+        if op.get('dry', True):
+            return
+        insts = self.model(op['root'], None)
+        suffix = op['render'].get('name_suffix', '')
+        for name, it in insts.items():
+            if it.kind in PERSIST_NONE:
+                continue
+            cfgname = self.world['configs'][it.cfg]['name'] + suffix
+            src = self.store.get((op.get('store', 'src'), f'name:{it.slug}:{cfgname}'))
+            if src is None or src.state != 'complete':
+                continue
+            k = (op['target'], it.D)
+            if k not in self.store:
+                self.store[k] = Loc(it.kind, it.slug, it.cspec.get('cont_steps', 0))
+            t = self.store[k]
+            if t.state != 'complete':
+                t.state = 'complete'
+                t.writer = it.D
+                t.tainted = False
+                t.last_run = None
+                t.migrated = True
 
 
 def _is_work_path(rel):
